@@ -9,9 +9,16 @@ from .interp import PathLimit
 
 
 def discharge(ob, quick_ms=3000, cli_timeout_s=20, all_solvers=False, seed=0, workdir=None):
-    assertions = list(ob.pc) + [tm.Not(ob.goal)]
-    r = solve.check(assertions, quick_ms=quick_ms, cli_timeout_s=cli_timeout_s, all_solvers=all_solvers,
+    neg = tm.Not(ob.goal)
+    sliced = tm.cone(list(ob.pc), [neg]) + [neg]
+    r = solve.check(sliced, quick_ms=quick_ms, cli_timeout_s=cli_timeout_s, all_solvers=all_solvers,
                     seed=seed, workdir=workdir)
+    if r.verdict != "unsat" and len(sliced) < len(ob.pc) + 1:
+        # hypotheses dropped by slicing cannot be needed unless the path is infeasible: re-check in full
+        r2 = solve.check(list(ob.pc) + [neg], quick_ms=quick_ms, cli_timeout_s=cli_timeout_s,
+                         all_solvers=all_solvers, seed=seed, workdir=workdir)
+        if r2.verdict == "unsat" or r.verdict == "unknown":
+            r = r2
     ob.result = r
     return r
 
